@@ -202,6 +202,10 @@ def _hyp_settings(max_examples: int, shrink: bool):
     )
 
 
+class _TimeUp(BaseException):
+    """raised inside the Hypothesis body when the time budget of a shard is used up"""
+
+
 def _drive(mod, tier, seed, max_examples, t_end, on_case, fail_pred=None, shrink=False):
     """Run the module's strategy under Hypothesis.  ``on_case(spec)`` returns the Result.
     With ``fail_pred`` the body raises for matching cases so that Hypothesis shrinks."""
@@ -209,15 +213,20 @@ def _drive(mod, tier, seed, max_examples, t_end, on_case, fail_pred=None, shrink
     from hypothesis import given
 
     strat = mod.strategy(tier)
-    state = {"skipped": 0, "last_fail": None}
+    state = {"skipped": 0, "last_fail": None, "calls": 0}
 
     @hypothesis.seed(seed)
     @_hyp_settings(max_examples, shrink)
     @given(strat)
     def body(spec):
         if time.time() > t_end:
+            if fail_pred is None:
+                # stop generating altogether (generation of the remaining examples alone can take longer than the budget);
+                # a BaseException that is not an Exception passes through Hypothesis untouched
+                raise _TimeUp()
             state["skipped"] += 1
             return
+        state["calls"] += 1
         res = on_case(spec)
         if fail_pred is not None and fail_pred(spec, res):
             state["last_fail"] = spec
@@ -225,6 +234,8 @@ def _drive(mod, tier, seed, max_examples, t_end, on_case, fail_pred=None, shrink
 
     try:
         body()
+    except _TimeUp:
+        state["skipped"] = max(0, int(max_examples) - state["calls"])
     except AssertionError:
         pass
     except BaseException as exc:  # noqa: BLE001
